@@ -7,6 +7,7 @@ import (
 	"path/filepath"
 	"time"
 
+	"simrt"
 	"verif/sim/simfs"
 
 	"github.com/johannesboyne/gofakes3"
@@ -187,12 +188,25 @@ func (e *Env) open() error {
 // Close shuts the incarnation down cleanly.
 func (e *Env) Close() error {
 	if e.BoltDB != nil {
-		err := e.BoltDB.Close()
+		db := e.BoltDB
 		e.BoltDB = nil
-		return err
+		// bbolt's Close waits for every open transaction; one that the code
+		// under test never closed would hang the harness here
+		done := make(chan error, 1)
+		go func() { done <- db.Close() }()
+		select {
+		case err := <-done:
+			return err
+		case <-time.After(simrt.BoltTxLimit):
+			return ErrCloseHung
+		}
 	}
 	return nil
 }
+
+// ErrCloseHung: the bolt database could not be closed because a transaction
+// was left open.
+var ErrCloseHung = fmt.Errorf("closing the bolt database hangs: a transaction was left open")
 
 // Restart closes the incarnation and opens a new one on the same storage.
 func (e *Env) Restart() error {
